@@ -5,7 +5,15 @@ import Aiorpcx.Facts.C02
 
     in : `B <member>,<member>.. <call>,<call>..`   (`-` for an empty call list)
            member = `R:<id>` | `N` | `X:<id>`; id as in the C01 driver
-           (`i<int>` `h<int>` `bT` `bF` `s<cp>.<cp>` `n` `u<tag>`);
+           (`i<int>` `h<int>` `bT` `bF` `s<cp>.<cp>` `n` `u<tag>`, tag < 1000), plus the
+           non-finite float ids `finf` `fninf` `fnan` (what `json.loads` makes of `1e999` /
+           `Infinity`, `-1e999` / `-Infinity`, `NaN`; JSON-RPC 2.0 admits every Number as id).
+           The C02 model never inspects an id - it binds it at receipt and echoes it (every
+           theorem is quantified over all ids) - so an id is an opaque label here.  `C01.Id`
+           (another property's file) has no constructor for these three values: the driver
+           interns them as the reserved labels `unhashable 1000/1001/1002`, which no other
+           token denotes (`u<tag>` is refused for tag >= 1000), and prints them back as
+           `finf` `fninf` `fnan`; the mapping token <-> label stays injective;
            call = `<member index>:<encoded length of its response>:<max_response_size at the
            moment this result is supplied>` in completion order
            (no id: the model answers under the id the member's item was bound to; no limit
@@ -32,7 +40,12 @@ def parseId2 (s : String) : Option Id :=
     match s.front with
     | 'i' => rest.toInt?.map .int
     | 'h' => rest.toInt?.map .half
-    | 'u' => rest.toNat?.map .unhashable
+    | 'u' => (rest.toNat?.filter (· < 1000)).map .unhashable
+    | 'f' =>
+        if rest == "inf" then some (.unhashable 1000)
+        else if rest == "ninf" then some (.unhashable 1001)
+        else if rest == "nan" then some (.unhashable 1002)
+        else none
     | 's' =>
         if rest == "" then some (.str [])
         else ((rest.splitOn ".").mapM String.toNat?).map .str
@@ -45,6 +58,9 @@ def showId : Id → String
   | .bool false => "bF"
   | .str s => "s" ++ String.intercalate "." (s.map toString)
   | .null => "n"
+  | .unhashable 1000 => "finf"
+  | .unhashable 1001 => "fninf"
+  | .unhashable 1002 => "fnan"
   | .unhashable t => "u" ++ toString t
 
 def parseMem (s : String) : Option Mem :=
